@@ -34,16 +34,27 @@ package client
 //@   requires forall a int :: 0 <= a && a < len(b) ==> len(indexMap) <= len(b[a])
 //@   requires forall p int :: 0 <= p && p < len(indexMap) ==> indexMap[p] < numParts
 //@   ensures len(_b) == len(b) && nonNilBalances(_b) && forall a int :: 0 <= a && a < len(b) ==> len(_b[a]) == numParts
+//@   ensures forall a, p int :: 0 <= a && a < len(b) && 0 <= p && p < len(indexMap) && lastOcc(indexMap, p, len(indexMap)) ==> _b[a][indexMap[p]] == b[a][p]
+//@   ensures forall a, q int :: 0 <= a && a < len(b) && 0 <= q && q < numParts && unmapped(indexMap, q, len(indexMap)) ==> val(_b[a][q]) == 0
 //@   loop 1
 //@     modifies _b[*]
 //@     invariant len(_b) == len(b) && fresh(arr(_b)) && off(_b) == 0
-//@     invariant forall k int :: 0 <= k && k < $i ==> len(_b[k]) == numParts && nonNilBals(_b[k])
+//@     invariant forall k int :: 0 <= k && k < $i ==> len(_b[k]) == numParts && nonNilBals(_b[k]) && fresh(arr(_b[k])) && off(_b[k]) == 0
+//@     invariant forall k, p int :: 0 <= k && k < $i && 0 <= p && p < len(indexMap) && lastOcc(indexMap, p, len(indexMap)) ==> _b[k][indexMap[p]] == b[k][p]
+//@     invariant forall k, q int :: 0 <= k && k < $i && 0 <= q && q < numParts && unmapped(indexMap, q, len(indexMap)) ==> val(_b[k][q]) == 0
 //@   loop 2
 //@     modifies _b[a][*]
-//@     invariant 0 <= a && a < len(_b) && len(_b[a]) == numParts && fresh(arr(_b[a])) && off(_b[a]) == 0 && forall l int :: 0 <= l && l < $i ==> _b[a][l] != nil
+//@     invariant 0 <= a && a < len(_b) && len(_b[a]) == numParts && fresh(arr(_b[a])) && off(_b[a]) == 0
+//@     invariant forall l int :: 0 <= l && l < $i ==> _b[a][l] != nil && val(_b[a][l]) == 0
 //@   loop 3
 //@     modifies _b[a][*]
 //@     invariant 0 <= a && a < len(_b) && len(_b[a]) == numParts && fresh(arr(_b[a])) && off(_b[a]) == 0 && nonNilBals(_b[a])
+//@     invariant forall l int :: 0 <= l && l < $i && lastOcc(indexMap, l, $i) ==> _b[a][indexMap[l]] == b[a][l]
+//@     invariant forall q int :: 0 <= q && q < numParts && unmapped(indexMap, q, $i) ==> val(_b[a][q]) == 0
+
+// lastOcc(m, p, n): no later position below n maps to the same parent index as position p; unmapped(m, q, n): no position below n maps to q.
+//@ pred lastOcc(m []channel.Index, p int, n int) = forall p2 int :: p < p2 && p2 < n ==> m[p2] != m[p]
+//@ pred unmapped(m []channel.Index, q int, n int) = forall p2 int :: 0 <= p2 && p2 < n ==> m[p2] != q
 
 // The proposal kinds are a closed set.
 //@ sealed ChannelProposal
